@@ -1,7 +1,63 @@
 package main
 
-// Replay of solver models against the real code (go test -overlay).
+// Replay of a failed obligation against the real code.
+//
+// Counterexample models over the block memory are not turned into Go values automatically;
+// instead /verif/findings/replays.json maps obligation names (regular expressions) to
+// hand-written in-package tests that exercise exactly the failing input class. The test is
+// injected with `go test -overlay` (nothing is written into the repository). If it fails on the
+// current tree the violation is reported with that test as replay; otherwise the violation is
+// still reported, ending in no-failing-input-found.
+
+import (
+	"encoding/json"
+	"fmt"
+	"os"
+	"os/exec"
+	"path/filepath"
+	"regexp"
+	"strings"
+)
+
+type replayTemplate struct {
+	ObligationRe string `json:"obligation_re"`
+	Test         string `json:"test"`
+	Pkg          string `json:"pkg"`
+	Run          string `json:"run"`
+}
 
 func (e *Engine) tryReplay(base, prop string, o *Obligation) (string, bool, string) {
-	return "", false, "no replay generator for this obligation shape yet"
+	verif := e.verifDir
+	data, err := os.ReadFile(filepath.Join(verif, "findings", "replays.json"))
+	if err != nil {
+		return "", false, "no replay templates (findings/replays.json)"
+	}
+	var ts []replayTemplate
+	if err := json.Unmarshal(data, &ts); err != nil {
+		return "", false, "bad replays.json: " + err.Error()
+	}
+	for _, t := range ts {
+		re, err := regexp.Compile(t.ObligationRe)
+		if err != nil || !re.MatchString(o.Name) {
+			continue
+		}
+		testFile := filepath.Join(verif, t.Test)
+		tmp, err := os.MkdirTemp("", "govc-replay-")
+		if err != nil {
+			return "", false, err.Error()
+		}
+		defer os.RemoveAll(tmp)
+		ov := fmt.Sprintf(`{"Replace": {%q: %q}}`, filepath.Join(e.repo, t.Pkg, "zz_verif_replay_test.go"), testFile)
+		ovFile := filepath.Join(tmp, "ov.json")
+		os.WriteFile(ovFile, []byte(ov), 0o644)
+		cmd := exec.Command("go", "test", "-overlay", ovFile, "-vet=off", "-count=1", "-timeout", "120s", "-run", t.Run, "./"+t.Pkg+"/")
+		cmd.Dir = e.repo
+		out, err := cmd.CombinedOutput()
+		log := fmt.Sprintf("replay test %s (%s) on %s:\n%s", t.Test, t.Run, e.repo, truncate(string(out), 6000))
+		if err != nil && strings.Contains(string(out), "FAIL") {
+			return testFile, true, log + "\n=> reproduced on the real code"
+		}
+		return testFile, false, log + "\n=> the replay test passes on this tree (the failing input of this template is not the one that broke the obligation)"
+	}
+	return "", false, "no replay template matches this obligation"
 }
